@@ -45,7 +45,9 @@ Allowed(api, e) ==
 \* "import_from": a `from <module> import <Name>` statement of the analysed file whose <Name> a foreign-key column refers to; the
 \* hostile payloads make <module> a package whose __init__ has side effects (benign: a plain module file)
 Slots == {"default", "type", "description", "module_stmt", "yaml_block", "import_from"}
-Payloads == {"benign", "call_expr", "dunder_chain", "import_stmt"}
+\* "pickled": a serialised object -- the bytes literal of a pickle whose LOADING has a side effect, next to `pickle.loads` as the type (the shape
+\* the argparse emitter itself writes for defaults it cannot spell); reading it as data is fine, loading it runs what the data names
+Payloads == {"benign", "call_expr", "dunder_chain", "import_stmt", "pickled"}
 \* what an analysing API does with a slot: source text is parsed to an AST (compile with ONLY_AST: no exec event),
 \* defaults go through literal_eval (no exec), a type guessed from prose passes a character whitelist (letters, digits,
 \* brackets, comma, pipe, dot) before it is probed with eval: a call needs parentheses, which the whitelist rejects
